@@ -20,6 +20,7 @@ mod rng;
 mod rwlock;
 mod settle;
 mod sharedq;
+mod alloc;
 mod robs_map;
 mod robs_set;
 mod rtc;
@@ -232,6 +233,7 @@ fn main() {
         "endpoint" => endpoint::run(seed, count, &extra, &mut out),
         "net" => net::run(seed, count, &extra, &mut out),
         "sharedq" => sharedq::run(seed, count, &extra, &mut out),
+        "alloc" => alloc::run(seed, count, &extra, &mut out),
         "robs_deque" => robs_deque::run(seed, count, &extra, &mut out),
         "robs_list" => robs_list::run(seed, count, &extra, &mut out),
         "robs_lag" => robs_lag::run(seed, count, &extra, &mut out),
